@@ -43,6 +43,11 @@ CHECKS['C17'] = dict(engine='nnxworld', design='DESIGN.md section 6, C17',
     note='These are deterministic folds; the simulator contributes only the history dimension (step sequences, batch partitions, resets, jit/eager alternation on one object). optax is the trusted base. rtol 1e-5 where the arithmetic under test is inexact (Adam, Welford, jit-vs-eager), bytes otherwise. No exception faults: the property says nothing about a failed update.',
     technique='deterministic simulation: seeded step / batch-partition histories vs hand-written optax loop and NumPy statistics')
 
+CHECKS['C18'] = dict(engine='bridgeworld', design='DESIGN.md section 6, C18',
+    text='Seeded call sequences on stateful bridge wrappers. ToNNX over generated Linen programs (params incl. partitioned ones, counters and running statistics in several collections, RNG draws, nested submodules), optionally inside an NNX parent: lazy_init, calls with changing mutable lists, split/merge round trips of the wrapper, direct Linen<->NNX variable conversion round trips, and calls aborted by an exception injected inside the wrapped module; after every call output and wrapper state are compared bytewise with the wrapped Linen module applied to the variables the harness extracts from the wrapper with the keys the wrapper drew, and collections must sit under the matching Variable types with names and sharding metadata intact. ToLinen over NNX classes (Param, BatchStat counter, RNG, sharding metadata), optionally inside a Linen parent: init/apply sequences against the NNX module rebuilt from graphdef + state.',
+    note='The wrapped module itself is the reference. Nothing is asserted about the wrapper Rngs after a failed call. Two genuine defects found by this check were repaired in /repo (fix: commits 3fdf8e2, 920d13a).',
+    technique='deterministic simulation: seeded call sequences on stateful wrappers with exception injection vs the wrapped module as reference')
+
 NA = {
   'C02': 'variable tree mirrors module tree: relation between stateless init/apply/lazy_init/bind results on the same arguments; ' + PURE,
   'C06': 'lifted scan/vmap = loop/stack: configuration-space equivalence of a pure function; ' + PURE,
@@ -58,16 +63,16 @@ NA = {
 
 # claimed in DESIGN.md, check not built yet (moved to CHECKS as each engine lands)
 _P = 'planned as a claimed check in DESIGN.md section 6 but its engine is not built yet in this commit; not claimed until it runs'
-PENDING = {p: _P for p in ['C04', 'C18']}
+PENDING = {p: _P for p in ['C04']}
 
 ENGINES = [
-  dict(name='kernel', path='sim/kernel.py', serves_properties=['C01', 'C03', 'C05', 'C09', 'C11', 'C15', 'C17', 'C20'], kind_free_text='seed -> JSON plan -> event-log digest; worker processes; ddmin shrinker; replay; evidence'),
+  dict(name='kernel', path='sim/kernel.py', serves_properties=['C01', 'C03', 'C05', 'C09', 'C11', 'C15', 'C17', 'C18', 'C20'], kind_free_text='seed -> JSON plan -> event-log digest; worker processes; ddmin shrinker; replay; evidence'),
   dict(name='sched', path='sim/sched.py', serves_properties=['C11', 'C20'], kind_free_text='baton-passing deterministic thread scheduler; stand-ins for threading and concurrent.futures.thread'),
   dict(name='disk', path='sim/disk.py', serves_properties=['C11'], kind_free_text='in-memory disk with crash / torn-write / I/O-error injection; stand-ins for os, shutil, open, glob and tensorflow.io.gfile'),
   dict(name='fsworld', path='sim/props/c11.py', serves_properties=['C11'], kind_free_text='checkpoint directory histories with crashes, restarts, retries, sweeps and async saves against a retention-policy model'),
   dict(name='valueworld', path='sim/props/c15.py', serves_properties=['C15'], kind_free_text='FrozenDict / struct dataclass call histories with foreign mutations and jit retrace histories'),
   dict(name='nnxworld', path='sim/nnxworld.py', serves_properties=['C03', 'C17'], kind_free_text='heap of NNX object graphs + pure-Python mirror, canonical form, filters, build ops'),
-  dict(name='programs', path='sim/programs.py', serves_properties=['C01', 'C05', 'C09'], kind_free_text='Linen program specs compiled to real nn.Module classes; callback-event fault controller; key recorder'),
+  dict(name='programs', path='sim/programs.py', serves_properties=['C01', 'C05', 'C09', 'C18'], kind_free_text='Linen program specs compiled to real nn.Module classes; callback-event fault controller; key recorder'),
   dict(name='linenworld', path='sim/props/c01.py', serves_properties=['C01'], kind_free_text='Linen call histories with fault injection against snapshot/memo/filter models'),
   dict(name='pipeworld', path='sim/props/c20.py', serves_properties=['C20'], kind_free_text='source -> PrefetchIterator / prefetch_to_device -> consumer under the thread scheduler with source fault injection'),
 ]
